@@ -320,6 +320,33 @@ def run(rep, tier):
                                  "cleared snapshot's segment, so the parent's restore reinstates elements pushed after "
                                  "its snapshot" % ",".join(o["m"] for o in ops))
                     break
+            # length vs count: `truncate(n)` keeps n elements, `drain(a..b)` / `split_off(a)` index from the front. What
+            # clear_snapshot knows about the cleared snapshot are COUNTS (len - remained); a position in `popped` has to be
+            # computed from popped.len().  `truncate(popped_count)` keeps the wrong number of elements.
+            cl = hirq.lets(cs["body"])
+
+            def from_len(e, depth=0):
+                e = peel(e)
+                if depth > 4 or e is None:
+                    return False
+                if hirq.lit_value(e) == 0:
+                    return True
+                for y in walk(e):
+                    if kind(y) == "MethodCall" and y["m"] == "len" and vec_field(y["recv"]) in popped_fields:
+                        return True
+                    if kind(y) == "Path" and y.get("res") == "local" and y["id"] in cl and cl[y["id"]][0] is not None \
+                            and from_len(cl[y["id"]][0], depth + 1):
+                        return True
+                return False
+            for e in ev:
+                if e.kind == "call" and kind(e.node) == "MethodCall" and e.node["m"] in ("truncate", "split_off") \
+                        and vec_field(e.node["recv"]) in popped_fields and e.node["args"]:
+                    r5.instance("clear:amount", where(e.node), hirq.expr_text(e.node["args"][0])[:40])
+                    if not from_len(e.node["args"][0]):
+                        r5.violation("clear:amount", where(e.node),
+                                     "clear_snapshot calls %s(%s) on the popped vector with an argument that is not computed "
+                                     "from its length: the argument is the number of elements to KEEP (an index), what the "
+                                     "snapshot entry gives is the number to remove" % (e.node["m"], hirq.expr_text(e.node["args"][0])[:40]))
             if not any(adjusts(e) for e in ev):
                 r5.violation("clear:adjust", where(cs["body"]), "a path of clear_snapshot consumes a snapshot entry without "
                              "adjusting the popped vector: what the cleared snapshot recorded stays behind and is replayed "
